@@ -53,7 +53,7 @@ fn check(case: &Value, obs: &mut Obs) {
   let true_end = end_position(&source);
   let lines = lines_of(&source);
   let mut compared_interesting = 0u64;
-  for round in 0..2 {
+  for round in 0..3 {
     for columns in [true, false] {
       // mode with text: every chunk starts where the scan says
       let rec = record(&src, &MapOptions::new(columns));
